@@ -1035,7 +1035,7 @@ Theorem apply_op_inv o s acc : Inv s acc -> polite_op o s = true -> Inv (stof (a
 Proof.
   intros I PO. revert s acc I PO.
   assert (WK : forall w : option tid, pinv (match w with Some t => wake t | None => ret tt end)) by (intros [t|]; [apply pinv_inert, inert_wake | apply pinv_ret]).
-  destruct o as [call x | h r | c a | c f | c | dt]; intros s acc I PO; cbn [apply_op].
+  destruct o as [call x | h r | c a | c f | c | dt | c f]; intros s acc I PO; cbn [apply_op].
   - (* an application call *)
     revert s acc I PO. change (forall s acc, Inv s acc -> polite_op (OpCall call x) s = true ->
       Inv (stof (bind getst (fun s0 => bind (modst (fun s => set_tasks (aset (ntid s0) {| t_task := TWriteStart; t_tout := false |} (tasks s)) (set_ntid (N.succ (ntid s0)) s)))
@@ -1067,6 +1067,8 @@ Proof.
   - clear PO; revert s acc I. apply pinv_bind; [apply pinv_inert; intros s; cbn; split; [unch | constructor]|]. intros w.
     apply pinv_bind; [apply pinv_inert, inert_modst; unch|]. intros ?. apply pinv_bind; [apply WK | intros ?; apply settle_inv].
   - clear PO; revert s acc I. apply pinv_getst_bind. intros s0. eapply ht_conseq; [apply advance_inv | intros s acc [I _]; exact I | intros ? ? ? X; exact X].
+  - clear PO; revert s acc I. apply pinv_bind; [apply pinv_inert; intros s; cbn; split; [unch | constructor]|]. intros w.
+    apply pinv_bind; [apply pinv_inert, inert_modst; unch|]. intros ?. apply pinv_bind; [apply WK | intros ?; apply settle_inv].
 Qed.
 End WithCfg.
 
